@@ -9,6 +9,7 @@
 #ifndef _GNU_SOURCE
 #define _GNU_SOURCE
 #endif
+#include <errno.h>
 #include <pthread.h>
 #include <sched.h>
 #include <stdint.h>
@@ -190,7 +191,7 @@ static void section_bb(uint64_t seed) {
 static pthread_barrier_t g_bar;
 static pthread_spinlock_t g_spin;
 static pthread_once_t g_once = PTHREAD_ONCE_INIT;
-static long g_once_runs, g_spin_cnt;
+static long g_once_runs, g_spin_cnt, g_spin_rc_bad;
 static int g_phases, g_bn;
 static long g_serial[64], g_phase_sum[64];
 static void once_fn(void) { __sync_fetch_and_add(&g_once_runs, 1); sched_yield(); }
@@ -200,9 +201,10 @@ static void * bar_fn(void * a_) {
   for (p = 0; p < g_phases; p++) {
     pthread_once(&g_once, once_fn);
     CHECK(g_once_runs == 1, "once routine ran %ld times", g_once_runs);
-    pthread_spin_lock(&g_spin);
+    if ((me + p) & 1) { int rc = pthread_spin_lock(&g_spin); if (rc != 0) __sync_fetch_and_add(&g_spin_rc_bad, 1); }
+    else { int rc; while ((rc = pthread_spin_trylock(&g_spin)) != 0) { if (rc != EBUSY) __sync_fetch_and_add(&g_spin_rc_bad, 1); sched_yield(); } }
     g_spin_cnt++; g_phase_sum[p] += me + p;
-    pthread_spin_unlock(&g_spin);
+    if (pthread_spin_unlock(&g_spin) != 0) __sync_fetch_and_add(&g_spin_rc_bad, 1);
     int rv = pthread_barrier_wait(&g_bar);
     if (rv == PTHREAD_BARRIER_SERIAL_THREAD) __sync_fetch_and_add(&g_serial[p], 1);
     else CHECK(rv == 0, "barrier_wait returned %d", rv);
@@ -215,7 +217,7 @@ static void * bar_fn(void * a_) {
 static void section_barrier(uint64_t seed) {
   rng_t r; rseed(&r, seed, 14);
   g_bn = 1 + (int)below(&r, 24); g_phases = 1 + (int)below(&r, 40);
-  memset(g_serial, 0, sizeof(g_serial)); memset(g_phase_sum, 0, sizeof(g_phase_sum)); g_spin_cnt = 0; g_once_runs = 0;
+  memset(g_serial, 0, sizeof(g_serial)); memset(g_phase_sum, 0, sizeof(g_phase_sum)); g_spin_cnt = 0; g_spin_rc_bad = 0; g_once_runs = 0;
   pthread_once_t fresh = PTHREAD_ONCE_INIT; g_once = fresh;
   pthread_barrier_init(&g_bar, 0, (unsigned)g_bn);
   pthread_spin_init(&g_spin, PTHREAD_PROCESS_PRIVATE);
@@ -225,7 +227,7 @@ static void section_barrier(uint64_t seed) {
   for (i = 0; i < g_bn; i++) pthread_join(t[i], 0);
   long serial_ok = 0;
   for (i = 0; i < g_phases; i++) serial_ok += (g_serial[i] == 1);
-  printf("barrier: n=%d phases=%d phases_with_exactly_one_serial=%ld spin_count=%ld once_runs=%ld\n", g_bn, g_phases, serial_ok, g_spin_cnt, g_once_runs);
+  printf("barrier: n=%d phases=%d phases_with_exactly_one_serial=%ld spin_count=%ld spin_unexpected_rc=%ld once_runs=%ld\n", g_bn, g_phases, serial_ok, g_spin_cnt, g_spin_rc_bad, g_once_runs);
   pthread_barrier_destroy(&g_bar); pthread_spin_destroy(&g_spin);
 }
 
@@ -269,9 +271,50 @@ static void section_keys(uint64_t seed) {
   for (i = 0; i < NKEYS; i++) pthread_key_delete(g_keys[i]);
 }
 
+
+/* ---------------------------------------------------------------- 6: return codes of a determinate single-threaded call sequence */
+static void * rc_fn(void * a) { return a; }
+static void rc_dtor(void * v) { (void)v; }
+static void rc_once(void) { }
+static void section_rc(uint64_t seed) {
+  (void)seed;
+  int a[8];
+  pthread_mutex_t m;
+  a[0] = pthread_mutex_init(&m, 0); a[1] = pthread_mutex_trylock(&m); a[2] = pthread_mutex_trylock(&m) == EBUSY;
+  a[3] = pthread_mutex_unlock(&m); a[4] = pthread_mutex_lock(&m); a[5] = pthread_mutex_unlock(&m); a[6] = pthread_mutex_destroy(&m);
+  printf("rc mutex: init=%d try_free=%d try_held_is_EBUSY=%d unlock=%d lock=%d unlock=%d destroy=%d\n", a[0], a[1], a[2], a[3], a[4], a[5], a[6]);
+  { pthread_mutex_t sm = PTHREAD_MUTEX_INITIALIZER;
+    a[0] = pthread_mutex_trylock(&sm); a[1] = pthread_mutex_trylock(&sm) == EBUSY; a[2] = pthread_mutex_unlock(&sm); a[3] = pthread_mutex_lock(&sm); a[4] = pthread_mutex_unlock(&sm);
+    printf("rc static-mutex: try_free=%d try_held_is_EBUSY=%d unlock=%d lock=%d unlock=%d\n", a[0], a[1], a[2], a[3], a[4]); }
+  pthread_spinlock_t sp;
+  a[0] = pthread_spin_init(&sp, PTHREAD_PROCESS_PRIVATE); a[1] = pthread_spin_trylock(&sp); a[2] = pthread_spin_trylock(&sp) == EBUSY;
+  a[3] = pthread_spin_unlock(&sp); a[4] = pthread_spin_lock(&sp); a[5] = pthread_spin_unlock(&sp); a[6] = pthread_spin_destroy(&sp);
+  printf("rc spin: init=%d try_free=%d try_held_is_EBUSY=%d unlock=%d lock=%d unlock=%d destroy=%d\n", a[0], a[1], a[2], a[3], a[4], a[5], a[6]);
+  pthread_cond_t c;
+  a[0] = pthread_cond_init(&c, 0); a[1] = pthread_cond_signal(&c); a[2] = pthread_cond_broadcast(&c); a[3] = pthread_cond_destroy(&c);
+  printf("rc cond: init=%d signal_nobody=%d broadcast_nobody=%d destroy=%d\n", a[0], a[1], a[2], a[3]);
+  pthread_barrier_t b;
+  a[0] = pthread_barrier_init(&b, 0, 1); a[1] = pthread_barrier_wait(&b) == PTHREAD_BARRIER_SERIAL_THREAD; a[2] = pthread_barrier_wait(&b) == PTHREAD_BARRIER_SERIAL_THREAD; a[3] = pthread_barrier_destroy(&b);
+  printf("rc barrier1: init=%d wait_is_serial=%d again=%d destroy=%d\n", a[0], a[1], a[2], a[3]);
+  pthread_key_t k;
+  a[0] = pthread_key_create(&k, rc_dtor); a[1] = pthread_getspecific(k) == 0; a[2] = pthread_setspecific(k, &a); a[3] = pthread_getspecific(k) == (void *)&a;
+  a[4] = pthread_setspecific(k, 0); a[5] = pthread_key_delete(k);
+  printf("rc key: create=%d fresh_is_null=%d set=%d get_matches=%d clear=%d delete=%d\n", a[0], a[1], a[2], a[3], a[4], a[5]);
+  pthread_once_t o = PTHREAD_ONCE_INIT;
+  a[0] = pthread_once(&o, rc_once); a[1] = pthread_once(&o, rc_once);
+  printf("rc once: first=%d second=%d\n", a[0], a[1]);
+  pthread_t t; void * res = 0;
+  a[0] = pthread_create(&t, 0, rc_fn, (void *)0x77); a[1] = pthread_join(t, &res); a[2] = res == (void *)0x77;
+  a[3] = pthread_create(&t, 0, rc_fn, 0); a[4] = pthread_detach(t); a[5] = pthread_equal(pthread_self(), pthread_self()) != 0;
+  pthread_attr_t at;
+  a[6] = pthread_attr_init(&at); a[7] = pthread_attr_destroy(&at);
+  printf("rc thread: create=%d join=%d value_ok=%d create=%d detach=%d self_equal=%d attr_init=%d attr_destroy=%d\n", a[0], a[1], a[2], a[3], a[4], a[5], a[6], a[7]);
+  usleep(1000);   /* let the detached thread finish */
+}
+
 int main(int argc, char ** argv) {
   uint64_t seed = argc > 1 ? strtoull(argv[1], 0, 10) : 1;
-  unsigned mask = argc > 2 ? (unsigned)strtoul(argv[2], 0, 0) : 0x1f;
+  unsigned mask = argc > 2 ? (unsigned)strtoul(argv[2], 0, 0) : 0x3f;
   setvbuf(stdout, 0, _IOLBF, 0);
   rng_t r; rseed(&r, seed, 99);
   int rounds = 1 + (int)below(&r, 3), k;
@@ -282,6 +325,7 @@ int main(int argc, char ** argv) {
     if (mask & 4) section_bb(rnd(&r));
     if (mask & 8) section_barrier(rnd(&r));
     if (mask & 16) section_keys(rnd(&r));
+    if (mask & 32) section_rc(rnd(&r));
   }
   printf("done\n");
   return 0;
